@@ -19,6 +19,8 @@ statically typed generic compositions, each of which is also evaluated through e
 mod c01_model;
 #[path = "../shared/c01_trees.rs"]
 mod c01_trees;
+#[path = "../shared/c01_reentrant.rs"]
+mod c01_reentrant;
 
 use std::{
     collections::BTreeMap,
@@ -1477,7 +1479,9 @@ fn main() {
         let case = load_replay(path);
         let seed = case.get("seed").and_then(|v| v.as_u64()).unwrap_or(args.seed);
         let index = case.get("index").and_then(|v| v.as_u64()).unwrap_or(0);
-        if case.get("section").and_then(|v| v.as_str()) == Some("static") {
+        if case.get("section").and_then(|v| v.as_str()) == Some("reentrant") {
+            c01_reentrant::reentrant_case(&mut r, seed, index);
+        } else if case.get("section").and_then(|v| v.as_str()) == Some("static") {
             static_case(&mut r, seed, index);
         } else {
             dyn_case(&mut r, seed, index);
@@ -1498,6 +1502,8 @@ fn main() {
     par_cases(&mut r, &args, n_dyn, |i, r| dyn_case(r, seed, i));
     par_cases(&mut r, &args, n_static, |i, r| static_case(r, seed, static_from + i));
     r.set("static_shapes", json!(STATIC_NAMES.len()));
+    let n_re = if cfg!(miri) { 3 } else { args.n(3_000, 100_000) };
+    par_cases(&mut r, &args, n_re, |i, r| c01_reentrant::reentrant_case(r, seed, i));
 
     std::process::exit(r.finish());
 }
